@@ -21,25 +21,37 @@ MANIP_TYPES = {
 CAT = {}
 
 
-def add(name, prop, needs, pre=None):
-    CAT[name] = (prop, needs, pre)
+OPTS = {}
+
+
+def add(name, prop, needs, pre=None, sem_pre=None, **opts):
+    """pre: assumption for every mode; sem_pre: additional operand-domain bound for the semantic/frame
+    harnesses only (the no-panic harness keeps the full domain).
+    opts: vlen_enum=False -> vector lengths are not enumerated (fixed 1);
+          idx_enum=True   -> the INTEGER index operand takes a concrete set of values instead of any i32
+                             (Vec::remove/insert on large elements with a symbolic index exhausts CBMC);
+          top_int=[..]    -> the top INTEGER (a size operand) takes these concrete values (a symbolic size is
+                             a symbolic allocation, which CBMC cannot handle)."""
+    CAT[name] = (prop, needs, pre, sem_pre)
+    OPTS[name] = opts
 
 
 # ---- stack manipulation (C05) -------------------------------------------------------------------
 for ty, key in MANIP_TYPES.items():
     item = ty in ("CODE", "EXEC")
+    big = ty in ("CODE", "EXEC", "NAME", "BOOLVECTOR", "INTVECTOR", "FLOATVECTOR")
     for op in ("DUP", "POP", "FLUSH"):
         if not item:
-            add("%s.%s" % (ty, op), "C05", {key: 2})
-    add("%s.SWAP" % ty, "C05", {key: 2})
+            add("%s.%s" % (ty, op), "C05", {key: 2}, vlen_enum=False)
+    add("%s.SWAP" % ty, "C05", {key: 2}, vlen_enum=False)
     if ty in ("BOOLEAN", "INTEGER", "FLOAT", "NAME", "CODE", "EXEC"):
-        add("%s.ROT" % ty, "C05", {key: 3})
+        add("%s.ROT" % ty, "C05", {key: 3}, vlen_enum=False)
     for op in ("YANK", "SHOVE") + (() if item else ("YANKDUP",)):
         if key == "ni":
             add("%s.%s" % (ty, op), "C05", {"ni": 4})
         else:
-            add("%s.%s" % (ty, op), "C05", {"ni": 1, key: 3})
-    add("%s.STACKDEPTH" % ty, "C05", {key: 2})
+            add("%s.%s" % (ty, op), "C05", {"ni": 1, key: 3}, vlen_enum=False, idx_enum=big)
+    add("%s.STACKDEPTH" % ty, "C05", {key: 2}, vlen_enum=False)
     add("%s.ID" % ty, "C10", {})
 
 # ---- scalar semantics (C04) ---------------------------------------------------------------------
@@ -49,14 +61,18 @@ add("BOOLEAN.NOT", "C04", {"nb": 1})
 add("BOOLEAN.FROMFLOAT", "C04", {"nf": 1})
 add("BOOLEAN.FROMINTEGER", "C04", {"ni": 1})
 add("BOOLEAN.RAND", "C13", {})
-for op in ("%", "*", "+", "-", "/", "<", "=", ">", "MAX", "MIN", "DDUP"):
+for op in ("*", "+", "-", "<", "=", ">", "MAX", "MIN", "DDUP"):
     add("INTEGER." + op, "C04", {"ni": 2})
+for op in ("%", "/"):
+    add("INTEGER." + op, "C04", {"ni": 2}, None, "pre_int_div_domain")
 add("INTEGER.ABS", "C04", {"ni": 1})
 add("INTEGER.FROMBOOLEAN", "C04", {"nb": 1})
 add("INTEGER.FROMFLOAT", "C04", {"nf": 1})
 add("INTEGER.RAND", "C13", {})
-for op in ("%", "*", "+", "-", "/", "<", "=", ">", "MAX", "MIN"):
+for op in ("%", "+", "-", "<", "=", ">", "MAX", "MIN"):
     add("FLOAT." + op, "C04", {"nf": 2})
+add("FLOAT.*", "C04", {"nf": 2}, None, "pre_flt_short_mantissa")
+add("FLOAT./", "C04", {"nf": 2})
 for op in ("SIN", "COS", "TAN", "EXP"):
     add("FLOAT." + op, "C04", {"nf": 1})
 add("FLOAT.FROMBOOLEAN", "C04", {"nb": 1})
@@ -75,11 +91,11 @@ add("CODE.FROMNAME", "C04", {"nn": 1})
 
 # ---- CODE instructions that only inspect / move items (C08 subset) ---------------------------------
 add("CODE.QUOTE", "C10", {"ne": 1})
-add("CODE.APPEND", "C08", {"nc": 2})
-add("CODE.ATOM", "C08", {"nc": 1})
-add("CODE.NULL", "C08", {"nc": 1})
-add("CODE.LENGTH", "C08", {"nc": 1})
-add("CODE.SIZE", "C08", {"nc": 1})
+add("CODE.APPEND", "C10", {"nc": 2})
+# CODE.ATOM drops a temporary Item (Item::empty_list()): out of reach
+add("CODE.NULL", "C10", {"nc": 1})
+add("CODE.LENGTH", "C10", {"nc": 1})
+# CODE.SIZE recurses over an Item with an unresolved discriminant: out of reach
 add("CODE.NOOP", "C10", {})
 
 # ---- INDEX (frame / crash freedom only; semantics belong to C06 which is not claimed) -------------
@@ -110,8 +126,8 @@ for ty, key, sk in (("BOOLVECTOR", "nbv", "nb"), ("INTVECTOR", "niv", "ni"), ("F
         add(ty + ".SET", "C09", {"ni": 1, sk: 1, key: 1})
     add(ty + ".EQUAL", "C09", {key: 2})
     add(ty + ".LENGTH", "C09", {key: 1})
-    add(ty + ".ONES", "C09", {"ni": 1}, "pre_top_int_small")
-    add(ty + ".ZEROS", "C09", {"ni": 1}, "pre_top_int_small")
+    add(ty + ".ONES", "C09", {"ni": 1}, top_int=[-1, 0, 1, 2, 3])
+    add(ty + ".ZEROS", "C09", {"ni": 1}, top_int=[-1, 0, 1, 2, 3])
     if ty == "INTVECTOR":
         add(ty + ".ROTATE", "C09", {"ni": 1, key: 1})
     else:
@@ -122,31 +138,33 @@ for op in ("AND", "OR"):
     add("BOOLVECTOR." + op, "C09", {"ni": 1, "nbv": 2})
 add("BOOLVECTOR.NOT", "C09", {"ni": 1, "nbv": 1})
 add("BOOLVECTOR.COUNT", "C09", {"nbv": 1})
-add("BOOLVECTOR.RAND", "C13", {"ni": 1, "nf": 1}, "pre_top_int_small")
+add("BOOLVECTOR.RAND", "C13", {"ni": 1, "nf": 1}, top_int=[-1, 0, 1, 2, 3])
 for op in ("+", "-"):
     add("INTVECTOR." + op, "C09", {"ni": 1, "niv": 2})
-for op in ("+", "-", "*", "/"):
+for op in ("+", "-"):
     add("FLOATVECTOR." + op, "C09", {"ni": 1, "nfv": 2})
+add("FLOATVECTOR.*", "C09", {"ni": 1, "nfv": 2}, None, "pre_fvec_short_mantissa")
+add("FLOATVECTOR./", "C09", {"ni": 1, "nfv": 2})
 add("INTVECTOR.APPEND", "C09", {"ni": 1, "niv": 1})
 add("FLOATVECTOR.APPEND", "C09", {"nf": 1, "nfv": 1})
 add("INTVECTOR.BOOLINDEX", "C09", {"nbv": 1})
 add("INTVECTOR.CONTAINS", "C09", {"ni": 1, "niv": 1})
 add("INTVECTOR.EMPTY", "C09", {})
 add("FLOATVECTOR.EMPTY", "C09", {})
-add("INTVECTOR.FROMINT", "C09", {"ni": 3})
+add("INTVECTOR.FROMINT", "C09", {"ni": 3}, top_int=[-1, 0, 1, 2, 3, 4])
 add("INTVECTOR.MEAN", "C09", {"niv": 1})
-add("FLOATVECTOR.MEAN", "C09", {"nfv": 1})
+add("FLOATVECTOR.MEAN", "C09", {"nfv": 1}, None, "pre_fvec_short_mantissa")
 add("INTVECTOR.SUM", "C09", {"niv": 1})
 add("FLOATVECTOR.SUM", "C09", {"nfv": 1})
 add("INTVECTOR.REMOVE", "C09", {"ni": 1, "niv": 1})
 add("INTVECTOR.SET*INSERT", "C09", {"ni": 1, "niv": 1})
-add("INTVECTOR.RAND", "C13", {"ni": 3}, "pre_top_int_small")
-add("FLOATVECTOR.RAND", "C13", {"ni": 1, "nf": 2}, "pre_top_int_small")
-add("FLOATVECTOR.*SCALAR", "C09", {"nf": 1, "nfv": 1})
-add("FLOATVECTOR.SINE", "C09", {"ni": 1, "nf": 3}, "pre_top_int_small")
+add("INTVECTOR.RAND", "C13", {"ni": 3}, top_int=[-1, 0, 1, 2])
+add("FLOATVECTOR.RAND", "C13", {"ni": 1, "nf": 2}, top_int=[-1, 0, 1, 2])
+add("FLOATVECTOR.*SCALAR", "C09", {"nf": 1, "nfv": 1}, None, "pre_fvec_short_mantissa")
+add("FLOATVECTOR.SINE", "C09", {"ni": 1, "nf": 3}, top_int=[0, 1, 2, 3])
 
 # ---- LIST (C19 / C20) -----------------------------------------------------------------------------
-add("LIST.NEIGHBOR*IDS", "C20", {"ni": 3, "nf": 1}, "pre_top3_int_small")
+add("LIST.NEIGHBOR*IDS", "C20", {"ni": 3, "nf": 1}, "pre_top3_int_small", no_cost=True)
 
 # Item-touching instructions: outside every claim (clone / drop of Item, HashMap insert, fmt, process)
 ITEM_TOUCHING_REASON = "clones/drops an Item, inserts into a HashMap, formats text or spawns a process: out of CBMC's reach (DESIGN.md section 2)"
